@@ -2630,7 +2630,7 @@ impl<Alloc: BrotliAlloc> BrotliEncoderStateStruct<Alloc> {
             BrotliWriteBits(2usize, 0, &mut storage_ix, header);
         } else {
             let nbits: u32 = if block_size == 1 {
-                0u32
+                1u32
             } else {
                 Log2FloorNonZero((block_size as u32).wrapping_sub(1) as (u64)).wrapping_add(1)
             };
